@@ -404,6 +404,11 @@ def run(ctx):
                     if inc:
                         ctx.ob('COUNTER', key, True, b.where(s.get('ln')), 'counter += 1')
                         continue
+                    # counter = max(counter, x): raise-only by construction
+                    if vs.k == 'call' and re.search(r'::max$|cmp::max$', vs.a) and len(vs.b) == 2 and any(
+                            any(x.k in ('local', 'let') and x.a == g.local for x in a.walk()) for a in vs.b):
+                        ctx.ob('COUNTER', key, True, b.where(s.get('ln')), 'counter = max(counter, %s)' % vs.b[1].brief(40))
+                        continue
                     conds = F.dominating_conds(b, bi)
                     raised = False
                     for c in conds:
@@ -421,7 +426,7 @@ def run(ctx):
                     ctx.ob('COUNTER', key, pre, b.where(s.get('ln')),
                            'counter = %s unguarded; %s' % (vs.brief(), 'this body is only called from `recover` before the log replay' if pre else
                                                            'and not provably before the replay: the counter can move backwards'))
-    ctx.floor('COUNTER', 5)
+    ctx.floor('COUNTER', 3)   # at least: an increment on the write path, the raise-only update in replay, the pre-replay store
 
     # ------------------------------------------------------------------ 7. the id stamped into the snapshot header
     # The header's last_transaction_id becomes the counter after a restart from that snapshot, so it must be read from a
